@@ -26,7 +26,8 @@ def run(ctx):
             if isinstance(x, ast.Call) and norm(x.func).endswith('Message'):
                 n1 += 1
                 t = norm(arg_by_name(x, msg_init, 'abs_time'))
-                ok = bool(re.match(r"^float\([\w.]+(?:\(\))?\.\w+\.search\(raw\)\.group\('timestamp'\)\.replace\(',', '\.'\)\) (?:/ 1000(?:\.0*)?|\* (?:0\.001|1e-0?3))$", t))
+                from .common import ms_to_s_term_ok
+                ok = ms_to_s_term_ok(t, p, r"[\w.]+(?:\(\))?\.\w+\.search\(raw\)\.group\('timestamp'\)")
                 ctx.check(ok, 'C16.1', 'log-time:ms-to-s', f_pm.loc(), 'log time = float(timestamp group with , -> .) / 1000', 'log time is %s' % t[:140])
     ctx.floor('C16.1', n1, 2, 'Message constructions in parse.message')
     f_ex = repo.try_func('extract.extract_message')
@@ -110,6 +111,11 @@ def run(ctx):
                   'listing does not reset the marker on both sides')
     ctx.floor('C16.3', nlist, 1, 'listing path that shows messages')
 
+    # the gap marker is kept by _show_message alone: a message printed by any other route is shown without its separator (and without
+    # moving the marker).  Who may print a message is C06.3's table; its findings about the routes to Message.show are findings here.
+    from . import common as _common, c06 as _c06
+    _common.lift(ctx, 'C16.3', 'single-route-to-show', _c06, 'C06', ('C06.3',), 'every message line is printed through _show_message, which keeps the gap marker',
+                 key_filter=lambda k: k.startswith(('show:caller', 'show_message:caller', '_show_message:shows-once')) or 'Message.show' in k or '_show_message' in k, floor=1)
     # ---- C16.4 -----------------------------------------------------------------------------------------
     f_mshow = repo.func('message.Message.show')
     n4 = 0
